@@ -6,6 +6,7 @@ they index is `Healthy()` of the host set, characterised by C15's `usable_correc
 -/
 import SamVerif.Props.C15
 import SamVerif.Gen.Lb
+import SamVerif.Gen.Relay
 namespace SamVerif.Props.C06
 open SamVerif.HostSet
 
@@ -118,6 +119,29 @@ theorem balancer_shapes :
 example : (List.range 6).map (fun j => rrPick (4 + j) 3) = [2, 0, 1, 2, 0, 1] := by decide
 example : leastConnPick 0 1 [5, 2, 9] = 1 := by decide
 
+/-- **The code the model was written against.** -/
+theorem code_matches_model :
+    Gen.Relay.handleConn =
+      ["cconn := netutil.New(conn)",
+      "cconn.SetReadTimeout(*p.cfg.IdleTimeout)",
+      "healthyHosts := p.hostSet.Healthy()",
+      "if len(healthyHosts) == 0 { p.Warnf(\"No available host\") return }",
+      "host := p.lb.PickHost(healthyHosts)",
+      "sconn, err := p.dial(host)",
+      "if err != nil { p.Warnf(\"Dial to host[%s] failed: %v\", host, err) p.stats.Upstream.CxConnectFail.Inc() return }",
+      "defer sconn.Close()",
+      "host.IncConnCount()",
+      "p.stats.Upstream.CxTotal.Inc()",
+      "p.stats.Upstream.CxActive.Inc()",
+      "defer func() { host.DecConnCount() p.stats.Upstream.CxDestroyTotal.Inc() p.stats.Upstream.CxActive.Dec() }()",
+      "done := make(chan struct{})",
+      "finished := make(chan struct{})",
+      "defer close(finished)",
+      "go func() { select { case <-host.WaitRemoved(): p.Infof(\"host: %s removed, conn will close...\", host.Addr) sconn.Close() cconn.Close() return case <-p.quit: sconn.Close() cconn.Close() return case <-finished: return } }()",
+      "go func() { p.pipeConn(cconn, sconn) close(done) }()",
+      "p.pipeConn(sconn, cconn)",
+      "<-done"] := rfl
+
 end SamVerif.Props.C06
 
 #print axioms SamVerif.Props.C06.rr_fair
@@ -126,3 +150,4 @@ end SamVerif.Props.C06
 #print axioms SamVerif.Props.C06.leastconn_not_busier
 #print axioms SamVerif.Props.C06.pick_from_usable
 #print axioms SamVerif.Props.C06.balancer_shapes
+#print axioms SamVerif.Props.C06.code_matches_model
